@@ -1,189 +1,12 @@
-import FpVerif.Sexp
-import FpVerif.Model.Record
-/-! Line-protocol oracle for the record model (C07): `oracle_record`.
-
-  (methods SPEC)                     which methods / Mutable fields exist
-  (eval SPEC X B C M1 M2)            what every generated method returns on x (base builder b, new values from c, maps m1 m2)
-  (clash SPEC)                       does the model predict that the generated file cannot compile
--/
+import Oracle.RecordStep
+/-! Line-protocol oracle for the record model (C07): `oracle_record` (the answers are in
+    `Oracle/RecordStep.lean`). -/
 open FpVerif FpVerif.Sexp FpVerif.Rec
-
-def hexVal (c : Char) : Option Nat :=
-  if '0' ≤ c ∧ c ≤ '9' then some (c.toNat - '0'.toNat)
-  else if 'A' ≤ c ∧ c ≤ 'F' then some (c.toNat - 'A'.toNat + 10)
-  else if 'a' ≤ c ∧ c ≤ 'f' then some (c.toNat - 'a'.toNat + 10)
-  else none
-
-/-- undo the harness's %XX escaping (ASCII payloads only) -/
-def unescL : List Char → List Char
-  | '%' :: a :: b :: rest =>
-    match hexVal a, hexVal b with
-    | some x, some y => if x * 16 + y == 0 then unescL rest else Char.ofNat (x * 16 + y) :: unescL rest
-    | _, _ => '%' :: unescL (a :: b :: rest)
-  | c :: rest => c :: unescL rest
-  | [] => []
-
-def unesc (s : String) : String := String.ofList (unescL s.toList)
-
-def hexDigit (n : Nat) : Char := if n < 10 then Char.ofNat (48 + n) else Char.ofNat (55 + n)
-
-def esc (s : String) : String :=
-  if s.isEmpty then "%00" else
-  String.ofList (s.toList.flatMap fun c =>
-    if c.toNat ≤ 32 ∨ c == '(' ∨ c == ')' ∨ c == '%' ∨ c == ';' ∨ c == '=' ∨ c == '|' ∨ c.toNat ≥ 127 then
-      ['%', hexDigit (c.toNat / 16), hexDigit (c.toNat % 16)]
-    else [c])
-
-partial def parseTy : Sexp → Option Ty
-  | .list [.atom "c", .atom n] => some (.conc n)
-  | .list [.atom "i", .atom n, .atom "all"] => some (.iface n true [])
-  | .list (.atom "i" :: .atom n :: .atom "some" :: impls) =>
-    some (.iface n false (impls.filterMap fun | .atom a => some a | _ => none))
-  | .list [.atom "o", e] => do pure (.opt (← parseTy e))
-  | _ => none
-
-partial def parseRV : Sexp → Option RV
-  | .list [.atom "a", .atom t] => some (.atom t)
-  | .atom "n" => some .none
-  | .list [.atom "s", v] => do pure (.some (← parseRV v))
-  | .atom "z" => some .nilIface
-  | .list [.atom "i", .atom d, v] => do pure (.iface d (← parseRV v))
-  | _ => none
-
-def atoms : List Sexp → List String := fun xs => xs.filterMap fun | .atom a => some a | _ => none
-
-def parseField : Sexp → Option Field
-  | .list [.atom "f", .atom name, ty, .atom emb, .atom empty, .atom nilable, .atom tag, zero] => do
-    pure { name := name, ty := ← parseTy ty, embedded := emb == "emb", emptyStruct := empty == "empty",
-           nilable := nilable == "nilable", tag := unesc tag, zero := ← parseRV zero }
-  | _ => none
-
-def parseSpec : Sexp → Option StructSpec
-  | .list [.atom "spec", .atom name, .list (.atom "origin" :: _), .list (.atom "ann" :: anns), .list (.atom "usert" :: ut),
-           .list (.atom "userb" :: ub), .list (.atom "userm" :: um), .list (.atom "defs" :: defs), .list (.atom "fields" :: fs)] => do
-    let a := atoms anns
-    let fields ← fs.mapM parseField
-    pure { name := name, fields := fields,
-           ann := { value := a.contains "value", json := a.contains "json", genLabelled := a.contains "genlabelled",
-                    getter := a.contains "getter", with_ := a.contains "with", builder := a.contains "builder",
-                    getterPub := a.contains "getterpub", withPub := a.contains "withpub", allArgs := a.contains "allargs" },
-           userT := atoms ut, userB := atoms ub, userM := atoms um,
-           builderDefined := (atoms defs).contains "b", mutableDefined := (atoms defs).contains "m" }
-  | _ => none
-
-def parseRec : Sexp → Option Rec
-  | .list (.atom "r" :: vs) => vs.mapM parseRV
-  | _ => none
-
-def parseDyn : Sexp → Option Dyn
-  | .atom "z" => some none
-  | .list [.atom "d", .atom t, v] => do pure (some (t, ← parseRV v))
-  | _ => none
-
-def parseMap : Sexp → Option GoMap
-  | .list (.atom "m" :: es) => es.mapM fun
-    | .list [.atom k, d] => do pure (k, ← parseDyn d)
-    | _ => none
-  | _ => none
-
-/-- display form of a field value (== zzDispV of the harness) -/
-def FpVerif.Rec.RV.disp : RV → String
-  | .atom s => s
-  | .none => "None"
-  | .some v => "Some(" ++ v.disp ++ ")"
-  | .nilIface => "nil"
-  | .iface d v => "<" ++ d ++ ">" ++ v.disp
-
-def recDisp (x : Rec) : String := "{" ++ ",".intercalate (x.map RV.disp) ++ "}"
-def listDisp (x : List RV) : String := "[" ++ ",".intercalate (x.map RV.disp) ++ "]"
-
-def sortStrings (l : List String) : List String := l.mergeSort (fun a b => decide (a ≤ b))
-
-def dynDisp : Dyn → String
-  | none => "nil"
-  | some (d, v) => "<" ++ d ++ ">" ++ v.disp
-
-def mapDisp (m : GoMap) : String :=
-  let keys := sortStrings (m.map (·.1))
-  "map{" ++ ",".intercalate (keys.map fun k => k ++ ":" ++ dynDisp (GoMap.get m k)) ++ "}"
-
-def labDisp (l : List Lab) : String :=
-  "[" ++ ",".intercalate (l.map fun e => e.name ++ ":" ++ e.value.disp ++ ":" ++ esc e.tag) ++ "]"
-
-def hasMeth (t : Table) (m : Meth) : Bool := t.any (·.2 == m)
-
-def inner? : RV → Option RV
-  | .some w => some w
-  | _ => none
-
-def evalLine (s : StructSpec) (x b c : Rec) (m1 m2 : GoMap) : String :=
-  let tT := methodsT s
-  let tB := methodsB s
-  let tM := methodsM s
-  let hasBuild := hasMeth tB .build
-  let fromT : List String := tT.flatMap fun (n, m) =>
-    match m with
-    | .getter i | .getPub i => [n ++ "=" ++ (getF i x).disp]
-    | .withF i | .withPub i => [n ++ "=" ++ recDisp (withF i (getF i c) x)]
-    | .withSome i => match inner? (getF i c) with
-      | some w => [n ++ "=" ++ recDisp (withSome i w x)]
-      | none => [n ++ "=-"]
-    | .withNone i => [n ++ "=" ++ recDisp (withNone i x)]
-    | .asTuple => [n ++ "=" ++ listDisp (asTuple s x)]
-    | .unapply => [n ++ "=" ++ listDisp (unapply s x)]
-    | .asMap => [n ++ "=" ++ mapDisp (asMap s x)]
-    | .asLabelled => [n ++ "=" ++ labDisp (asLabelled s x)]
-    | .builder => if hasBuild then [n ++ "=" ++ recDisp (build (toBuilder x))] else []
-    | .asMutable =>
-      [n ++ "=" ++ recDisp (asMutable s x)] ++
-        (if hasMeth tM .asImmutable then ["AsImmutable=" ++ recDisp (asImmutable s (asMutable s x))] else [])
-    | _ => []
-  let fromB : List String := if !hasBuild then [] else tB.flatMap fun (n, m) =>
-    match m with
-    | .bSet i => ["B." ++ n ++ "=" ++ recDisp (build (withF i (getF i c) b))]
-    | .bSome i => match inner? (getF i c) with
-      | some w => ["B." ++ n ++ "=" ++ recDisp (build (withSome i w b))]
-      | none => ["B." ++ n ++ "=-"]
-    | .bNone i => ["B." ++ n ++ "=" ++ recDisp (build (withNone i b))]
-    | .fromTuple => if s.nApp > 0 then ["B.FromTuple=" ++ recDisp (build (fromTuple s b (project s.fields x)))] else []
-    | .apply => ["B.Apply=" ++ recDisp (build (apply s b (project s.fields x)))]
-    | .fromMap => ["B.FromMap=" ++ recDisp (build (fromMap s.fields b m1)), "B.FromMap2=" ++ recDisp (build (fromMap s.fields b m2))]
-    | .fromLabelled =>
-      if hasMeth tT .asLabelled then ["B.FromLabelled=" ++ recDisp (build (fromLabelled s b (asLabelled s x)))] else []
-    | _ => []
-  let fromF : List String := if s.ann.allArgs then ["New=" ++ recDisp (newAllArgs s (project s.fields x))] else []
-  ";".intercalate (fromT ++ fromB ++ fromF)
-
-def methodsLine (s : StructSpec) : String :=
-  let hasB := s.valueRuns || s.ann.builder || s.builderDefined
-  let names (t : Table) (user : List String) := ",".intercalate (sortStrings (t.names ++ user))
-  "T:" ++ names (methodsT s) s.userT ++
-  "|B:" ++ (if hasB then names (methodsB s) s.userB else "-") ++
-  "|M:" ++ (if s.valueRuns then names (methodsM s) s.userM else "-") ++
-  "|MF:" ++ (if s.valueRuns then
-      ",".intercalate ((s.fields.zip (mutableFieldNames s)).map fun (f, n) => n ++ ":" ++ esc (mutableTag s f))
-    else "-")
-
-def step (line : String) : String :=
-  match Sexp.parse line with
-  | some (.list [.atom "methods", sp]) =>
-    match parseSpec sp with
-    | some s => methodsLine s
-    | none => "bad-op"
-  | some (.list [.atom "clash", sp]) =>
-    match parseSpec sp with
-    | some s => if (clashes s).isEmpty then "ok" else "clash"
-    | none => "bad-op"
-  | some (.list [.atom "eval", sp, x, b, c, m1, m2]) =>
-    match parseSpec sp, parseRec x, parseRec b, parseRec c, parseMap m1, parseMap m2 with
-    | some s, some x, some b, some c, some m1, some m2 => evalLine s x b c m1 m2
-    | _, _, _, _, _, _ => "bad-op"
-  | _ => "bad-op"
 
 partial def loop (h : IO.FS.Stream) (out : IO.FS.Stream) : IO Unit := do
   let line ← h.getLine
   if line.isEmpty then return ()
-  out.putStrLn (step line)
+  out.putStrLn (recordStep line)
   loop h out
 
 def main : IO Unit := do
